@@ -165,7 +165,11 @@ def grid_equal(res, tier):
     """grids generated with number_of_processors=2 equal the serial ones value for value"""
     import gridlab
 
-    pairs = [("circular", lambda np_: gridlab.circular_spec(options={"number_of_processors": np_}))]
+    pairs = [("circular", lambda np_: gridlab.circular_spec(options={"number_of_processors": np_})),
+             # non-orthogonal without boundary guard cells: many contours stop short of the wall and are extended inside the mapped task
+             # (_find_intersection), i.e. the task changes its argument and the change has to come back from the worker
+             ("lsn-nonorth-guards0", lambda np_: gridlab.tokamak_spec("lsn", options={"number_of_processors": np_, "orthogonal": False, "y_boundary_guards": 0},
+                                                                     wall=[(1.2, -0.5), (1.2, 0.5), (1.8, 0.5), (1.8, -0.5)], timeout=300))]
     if tier == "thorough":
         pairs.append(("lsn", lambda np_: gridlab.tokamak_spec("lsn", options={"number_of_processors": np_})))
         pairs.append(("cdn-nonorth", lambda np_: gridlab.tokamak_spec("cdn", options={"number_of_processors": np_, "orthogonal": False})))
